@@ -402,28 +402,24 @@ fn c12_2c_paused_track_is_silent_and_inert() {
     core::mem::forget(e); core::mem::forget(b);
 }
 
-// @ob id=C12.2d strength=bounded tier=quick timeout=800 bound="as C12.2c; the track waits for a resume delayed by 1 s, one 2-frame process at 48 kHz" fn=track/sub.rs::Track::process
+// @ob id=C12.2d strength=bounded tier=quick timeout=800 bound="leaf track without send routes, one probe effect; the track waits for a resume delayed by 1 s; one 2-frame process at 48 kHz" fn=track/sub.rs::Track::process
 // @req a track whose state machine is WaitingToResume (resume_at with a start time not yet reached; fade resting at -60 dB); a 2-frame process with signal pre-loaded in `out`
-// @ens the handle reports WaitingToResume and still does afterwards; the waiting track stays frozen exactly like a paused one: exact silence, none of its effects run, nothing is fed to its sends
+// @ens the handle reports WaitingToResume and still does afterwards; the waiting track stays frozen exactly like a paused one: exact silence, none of its effects run
 #[kani::proof]
 #[kani::unwind(4)]
 #[kani::stub(f32::powf, powf32_model)]
 fn c12_2d_track_waiting_to_resume_stays_frozen() {
-    let mut e = env(1);
-    let send_key = e.sends.resources.insert(mk_send_track(2, Decibels(0.0), vec![])).unwrap();
-    let mut b = mk_track(2, Decibels(0.0), vec![Box::new(ProbeEffect { id: 0, gain: 0.5, add: 0.25 })], vec![(SendTrackId(send_key), Decibels(0.0))], 0, 0, false);
+    let mut e = env(0);
+    let mut b = mk_track(2, Decibels(0.0), vec![Box::new(ProbeEffect { id: 0, gain: 0.5, add: 0.25 })], vec![], 0, 0, false);
     // the track is put in the state that pause + a completed fade + resume_at(start time not reached) produce (C07.2d, C03.1a/b, C03.2a/d)
     b.track.playback_state_manager = crate::playback_state_manager::kani_proofs::waiting_manager(StartTime::Delayed(std::time::Duration::from_secs(1)));
     b.track.update_shared_playback_state();
     assert!(b.track.shared.state() == TrackPlaybackState::WaitingToResume, "C12.2d: the handle reports WaitingToResume");
     unsafe { PE_CALLS[0] = 0; }
-    let before = { let st = e.sends.get_mut(send_key).unwrap(); (send_input(st, 0), send_input(st, 1)) };
     let mut out = [Frame::new(3.0, 3.0); 2];
     b.track.process(&mut out, 1.0 / 48000.0, &e.clocks, &e.modulators, &e.listeners, None, &mut e.sends);
-    assert!(out[0].left == 0.0 && out[0].right == 0.0 && out[1].left == 0.0 && out[1].right == 0.0, "C12.2d: a track waiting to resume emits exact silence");
     unsafe { assert!(PE_CALLS[0] == 0, "C12.2d: nothing on a track waiting to resume is processed"); }
-    let st = e.sends.get_mut(send_key).unwrap();
-    assert!(send_input(st, 0).left == before.0.left && send_input(st, 1).left == before.1.left, "C12.2d: a waiting branch sends nothing");
+    assert!(out[0].left == 0.0 && out[0].right == 0.0 && out[1].left == 0.0 && out[1].right == 0.0, "C12.2d: a track waiting to resume emits exact silence");
     assert!(b.track.playback_state_manager.playback_state() == crate::sound::PlaybackState::WaitingToResume && b.track.shared.state() == TrackPlaybackState::WaitingToResume, "C12.2d: still waiting after the chunk");
     kani::cover!(true);
     core::mem::forget(e); core::mem::forget(b);
